@@ -184,6 +184,12 @@ func randContentHuge(r *rng, huge bool) string {
 		switch {
 		case i == hugeAt:
 			sb.WriteString(hugeLine(r))
+		case i == 0 && r.chance(1, 4):
+			// R2: the list starts with a multi-byte sequence (UTF-8 byte order mark, non-ASCII title)
+			sb.WriteString(r2FirstLine(r))
+		case r.chance(1, 8):
+			// R2: a network rule with `#?` / `#@` / `#%` / `#$` inside (no cosmetic marker): IgnoreCosmetic must keep it
+			sb.WriteString(r2NearCosmeticLine(r))
 		case long && r.chance(1, 5):
 			sb.WriteString(longLine(r))
 		case r.chance(1, 25):
